@@ -54,7 +54,7 @@ for d in sorted(glob.glob("/verif/mutants/hint-*")):
     ok = j.get("confirm", "").startswith("ok")
     rows.append("| %s | %s | %s | %s | %s | %s |" % (os.path.basename(d), m.get("summary", ""), "passes" if ok else "suite fails", "yes" if j.get("caught_by_own_property_check") else "no", ", ".join(sorted(j.get("caught_by", {}))) or "-", notes.get(os.path.basename(d), "")))
 
-rows.append("\n### Independent seeded changes (seeded/), eighteen per property in ten rounds\n")
+rows.append("\n### Independent seeded changes (seeded/), eighteen per property in ten rounds, and one more for ten properties in an eleventh\n")
 rows.append("'when recorded' = with the harness and the commit of /repo of that time, all 20 quick checks; 're-measured' = own check only, by tools/reverify_seeds.py with the current harness at the commit named (patches that a later `fix:` commit moved under were rebased first; the original is kept as patch.at-<commit>.diff).\n")
 rows.append("| seed | what it changes | needs | caught by own check when recorded | all checks that caught it when recorded | re-measured |\n|---|---|---|---|---|---|")
 n = own = rown = retired = 0
